@@ -331,6 +331,18 @@ pub fn read_core(path: &Path) -> Result<CoreUnit, CompilationError> {
     Ok(unit)
 }
 
+/// The Go back end starts the program with `func main() { main0() }`: the entry point is
+/// called without arguments and is not a generic function.
+pub(crate) fn entry_point_signature_error(core: &crate::core::File) -> Option<String> {
+    let main = core.toplevels.iter().find(|f| f.name == "main")?;
+    if !main.params.is_empty() || !main.generics.is_empty() {
+        return Some(
+            "function main of package Main takes no parameters and no type parameters".to_string(),
+        );
+    }
+    None
+}
+
 pub fn link_cores(cores: Vec<CoreUnit>) -> Result<LinkOutput, CompilationError> {
     if cores.is_empty() {
         return Err(compile_error("no core inputs provided".to_string()));
@@ -354,6 +366,9 @@ pub fn link_cores(cores: Vec<CoreUnit>) -> Result<LinkOutput, CompilationError> 
         return Err(compile_error(
             "Main package missing main function".to_string(),
         ));
+    }
+    if let Some(message) = entry_point_signature_error(&main.core_ir) {
+        return Err(compile_error(message));
     }
 
     // A cycle is named as such: the interface hash of each member covers the hashes of the
